@@ -9,8 +9,8 @@
    on the calls is left: lazy stacks without members, trees locked through memmap_ and exclude(inplace=True) are all covered. *)
 From Coq Require Import List String Bool Arith PeanoNat.
 Import ListNotations.
-From TD Require Import Model.C05_Heap Model.C05_Lock Spec.C05_LockSpec
-  Proofs.C05_HeapP Proofs.C05_LockP Proofs.C05_InvP Proofs.C05_StepP Proofs.C05_FrozenP Proofs.C05_WitnessP Gen.C05_Tables.
+From TD Require Import Model.C05_Heap Model.C05_Lock Model.C05_LazyCall Spec.C05_LockSpec
+  Proofs.C05_LazyCallP Proofs.C05_HeapP Proofs.C05_LockP Proofs.C05_InvP Proofs.C05_StepP Proofs.C05_FrozenP Proofs.C05_WitnessP Gen.C05_Tables.
 Open Scope string_scope.
 
 (* ---- the lock-graph invariant holds in every reachable state -------------------------------------------------------------
@@ -134,7 +134,8 @@ Theorem C05_guard_table_core :
   /\ forallb (fun k => mem3 k lock_blocked_methods)
           [("_td.py", "TensorDict", "del_"); ("_td.py", "TensorDict", "popitem"); ("_td.py", "TensorDict", "rename_key_");
            ("base.py", "TensorDictBase", "clear"); ("base.py", "TensorDictBase", "update"); ("base.py", "TensorDictBase", "create_nested");
-           ("_lazy.py", "LazyStackedTensorDict", "insert"); ("_lazy.py", "LazyStackedTensorDict", "append")] = true.
+           ("_lazy.py", "LazyStackedTensorDict", "insert"); ("_lazy.py", "LazyStackedTensorDict", "append");
+           ("_lazy.py", "LazyStackedTensorDict", "del_"); ("_lazy.py", "LazyStackedTensorDict", "update")] = true.
 Proof. exact guard_table_core. Qed.
 Print Assumptions C05_guard_table_core.
 
@@ -193,3 +194,80 @@ Example C05_ex_gc_then_unlock :
   outcome_of (step 14 ex_state (OGc [1])) = Some Done /\ outcome_of (step 14 ex_s1 (OUnlock 0)) = Some Done /\
   outcome_of (step 14 ex_s2 (OSet 3 "new" VLeaf)) = Some Done /\ flag_true (hp ex_s2) 7 = false /\ flag_true (hp ex_state) 7 = true.
 Proof. vm_compute. repeat split. Qed.
+
+(* ==== calls issued on a lazy stack and routed to its members (Model/C05_LazyCall.v: set / stack[key] = v, del_, rename_key_,
+        select / exclude(inplace=True), update; members that are lazy stacks themselves dispatch again) ============================== *)
+(* the lock-graph invariant is kept by every call of the extended alphabet, also by one that raises after a partial effect *)
+Theorem C05_routed_invariant_step : forall fuel s o s' out, Inv s -> lstep fuel s o = Some (s', out) -> Inv s'.
+Proof. exact lstep_inv. Qed.
+Print Assumptions C05_routed_invariant_step.
+
+Theorem C05_routed_invariant_reachable : forall ff ops s' outs, lrun ff init ops = Some (s', outs) -> Inv s'.
+Proof. exact linvariant_reachable. Qed.
+Print Assumptions C05_routed_invariant_reachable.
+
+(* locked_frozen (full statement) over the extended alphabet: r locked and live, any call -- a plain one on any node or a routed
+   one on any lazy-stack handle, raising or not: the structure snapshot of r's tree is unchanged and the tree stays locked (unless
+   the call is a successful unlock_ of r) *)
+Theorem C05_routed_locked_frozen : forall fuel s o s' out r,
+  Inv s -> lstep fuel s o = Some (s', out) -> ~ lunguarded o ->
+  flag_true (hp s) r = true -> live s r = true ->
+  tree_unchanged (hp s) (hp s') r /\
+  (tree_locked (hp s') r \/ (exists n, o = LBase (OUnlock n) /\ out = Done /\ flag_true (hp s') r = false)).
+Proof. exact lstep_locked_frozen. Qed.
+Print Assumptions C05_routed_locked_frozen.
+
+Theorem C05_routed_locked_frozen_history : forall ff ops s s' outs r,
+  Inv s -> Forall (fun o => ~ lunguarded o) ops -> lrun ff s ops = Some (s', outs) ->
+  flag_true (hp s) r = true -> live s r = true -> lstays_locked ff s ops r ->
+  tree_unchanged (hp s) (hp s') r /\ tree_locked (hp s') r.
+Proof. exact lfrozen_run. Qed.
+Print Assumptions C05_routed_locked_frozen_history.
+
+(* node by node, no invariant needed: a routed call (whatever its outcome, partial effects included) leaves every flagged node
+   with its kind, its entries and its flag *)
+Theorem C05_routed_call_keeps_locked : forall fuel s l c s' out,
+  lstep fuel s (LCall l c) = Some (s', out) ->
+  forall x a, flag_true (hp s) x = true -> lookup (hp s) x = Some a ->
+    exists b, lookup (hp s') x = Some b /\ nk b = nk a /\ ents b = ents a /\ flg b = FTrue.
+Proof. exact routed_call_keeps_locked. Qed.
+Print Assumptions C05_routed_call_keeps_locked.
+
+(* a locked stack refuses: locked through lock_ (its own or an ancestor's) ... *)
+Theorem C05_locked_stack_refuses : forall fuel c s l s' out,
+  Inv s -> flag_true (hp s) l = true -> live s l = true -> lstep fuel s (LCall l c) = Some (s', out) ->
+  s' = s /\ (out = Raised ELock \/ out = Invalid).
+Proof. exact flagged_stack_refuses. Qed.
+Print Assumptions C05_locked_stack_refuses.
+
+(* ... or never locked itself, all its members locked on their own (derived is_locked): refused at the stack (del_, exclude,
+   update) or by its first member (set, rename_key_, select), the state is literally the same *)
+Theorem C05_member_locked_stack_refuses : forall fuel c s l nd s' out,
+  Inv s -> lookup (hp s) l = Some nd -> nk nd = KLazy ->
+  (forall m, In m (node_children nd) -> flag_true (hp s) m = true /\ live s m = true) ->
+  lstep fuel s (LCall l c) = Some (s', out) -> s' = s /\ (out = Raised ELock \/ out = Invalid).
+Proof. exact member_locked_stack_refuses. Qed.
+Print Assumptions C05_member_locked_stack_refuses.
+
+(* after lock_ on a stack, the same calls issued on a MEMBER's own handle are refused by the member's flag *)
+Theorem C05_locked_stack_member_handle_refuses : forall fuel s l s' m c fuel2 s2 out,
+  Inv s -> exists_live s l = true -> step fuel s (OLock l) = Some (s', Done) -> child (hp s') l m ->
+  step fuel2 s' (member_op c m) = Some (s2, out) -> s2 = s' /\ (out = Raised ELock \/ out = Invalid).
+Proof. exact locked_stack_member_handle_refuses. Qed.
+Print Assumptions C05_locked_stack_member_handle_refuses.
+
+(* non-vacuity / witnesses: a locked stack of two members refuses the eight calls with ELock (not Invalid) on the stack handle and
+   on member 0's handle; and the partial effect exists: member 0 unlocked accepts, member 1 locked refuses, the call raises, only
+   the unlocked member has changed *)
+Example C05_ex_locked_stack :
+  map (fun c => lstep 9 locked_stack_state (LCall 4 c)) witness_calls = map (fun _ => Some (locked_stack_state, Raised ELock)) witness_calls
+  /\ map (fun c => step 9 locked_stack_state (member_op c 0)) witness_calls = map (fun _ => Some (locked_stack_state, Raised ELock)) witness_calls
+  /\ flag_true (hp locked_stack_state) 4 = true /\ live locked_stack_state 4 = true /\ child (hp locked_stack_state) 4 0.
+Proof. exact locked_stack_witness. Qed.
+Example C05_ex_partial_effect :
+  match lstep 8 partial_state (LCall 2 (LSet "a")) with
+  | Some (s', out) => out = Raised ELock /\ option_map ents (lookup (hp s') 0) = Some [("a", RLeaf 3)]
+                      /\ option_map ents (lookup (hp s') 1) = Some [] /\ flag_true (hp s') 1 = true
+  | None => False
+  end.
+Proof. exact partial_effect. Qed.
